@@ -373,7 +373,8 @@ def main():
         for h in kani_res["harnesses"]:
             if h["status"] == "FAILED":
                 violations.append({"unit": "kani", "message": "Kani harness %s FAILED" % h["name"], "region": h["name"], "props": [prop],
-                                   "rendered": h.get("detail", ""), "counterexample": h.get("counterexample"), "at": h.get("what")})
+                                   "rendered": h.get("detail", ""), "counterexample": h.get("counterexample"), "counterexample_bytes": h.get("counterexample_bytes"),
+                                   "native_replay": h.get("native_replay"), "at": h.get("what")})
             elif h["status"] != "SUCCESSFUL":
                 undecided.append({"unit": "kani", "message": "Kani harness %s: %s" % (h["name"], h["status"]), "rendered": h.get("detail", "")})
 
